@@ -11,6 +11,7 @@ import Driver.Tcp
 import Driver.C06
 import Driver.C07
 import Driver.C19
+import Driver.C20
 
 /-! Line-protocol driver: `driver <property> model|oracle < ops > out`.
     Stateless properties map each line independently; stateful ones thread a state. -/
@@ -48,5 +49,6 @@ def main (args : List String) : IO UInt32 := do
   | ["C19", mode] => loopState stdin stdout (Driver.C19.step (mode == "oracle")) default; return 0
   | ["C07", mode] => loopState stdin stdout (Driver.C07.step (mode == "oracle")) default; return 0
   | ["C06", mode] => loopState stdin stdout (Driver.C06.step (mode == "oracle")) default; return 0
+  | ["C20", mode] => loopState stdin stdout (Driver.C20.step (mode == "oracle")) (); return 0
   | ["TCP", mode] => loopState stdin stdout (Driver.Tcp.step (mode == "oracle")) default; return 0
   | _ => IO.eprintln "usage: driver <property> model|oracle"; return 2
